@@ -33,6 +33,8 @@ type c11env struct {
 
 var c11once sync.Once
 var c11e *c11env
+var c11once2 sync.Once
+var c11e2 *c11env
 
 func markerArchive(marker string) []byte {
 	data := []byte(marker)
@@ -43,9 +45,22 @@ func markerArchive(marker string) []byte {
 }
 
 func c11setup() *c11env {
-	c11once.Do(func() {
+	c11once.Do(func() { c11e = c11build("served") })
+	return c11e
+}
+
+// the same layout under a served directory whose name has characters that mean something in a URL
+func c11setup2() *c11env {
+	// cut at the first of these characters, the path names the parent directory
+	c11once2.Do(func() { c11e2 = c11build("#1?x=y%41") })
+	return c11e2
+}
+
+func c11build(servedName string) *c11env {
+	var out *c11env
+	{
 		base, _ := os.MkdirTemp("", "vh-c11")
-		e := &c11env{base: base, served: filepath.Join(base, "served")}
+		e := &c11env{base: base, served: filepath.Join(base, servedName)}
 		os.MkdirAll(filepath.Join(e.served, "sub"), 0o755)
 		os.MkdirAll(filepath.Join(base, "served-private"), 0o755)
 		os.MkdirAll(filepath.Join(base, "other"), 0o755)
@@ -69,9 +84,9 @@ func c11setup() *c11env {
 		}
 		go http.Serve(ln, mux)
 		e.rawAddr = ln.Addr().String()
-		c11e = e
-	})
-	return c11e
+		out = e
+	}
+	return out
 }
 
 func classify(status int, body []byte) string {
@@ -114,6 +129,10 @@ func c11run(line string) (string, []string) {
 		mode := t.n()
 		p := string(unhx(t.s()))
 		e := c11setup()
+		if mode >= 3 { // modes 3..5: the same three entry points on a served directory with URL-significant characters in its name
+			e = c11setup2()
+			mode -= 3
+		}
 		var res string
 		switch mode {
 		case 0:
@@ -215,6 +234,12 @@ func c11(r *rng, tier string, o *out) {
 		}
 		p += suff[r.intn(len(suff))]
 		mode := r.intn(3)
+		if c%4 == 3 {
+			mode += 3
+			if c%8 == 3 { // with the bucket root cut short at '#' or '?', files beside the served directory are plain names
+				p = []string{"/outside", "/other/x", "/served-private/secret", "/in"}[r.intn(4)] + suff[r.intn(len(suff))]
+			}
+		}
 		emit(fmt.Sprintf("serve %d %s", mode, hx([]byte(p))), true, fmt.Sprintf("serve-mode%d", mode))
 	}
 }
